@@ -21,6 +21,19 @@ type mev struct {
 	P    *TPkt
 }
 
+// sigSeen is shared by all cases of a run: every signature is listed a few times, repetitions are counted (a defect
+// of one history class shows up again and again; the list must not crowd out other signatures).
+var sigSeen = map[string]int{}
+
+func (s *Sim) viol(sig, what string, witness any) {
+	sigSeen[sig]++
+	if sigSeen[sig] > 4 {
+		s.C.Inc("violations_repeating_a_listed_signature")
+		return
+	}
+	s.C.Violate(sig, what, witness)
+}
+
 func bigOf(x interface{ BigInt() *big.Int }) *big.Int { return new(big.Int).Set(x.BigInt()) }
 
 func (s *Sim) sendKey(p *TPkt) ratelimit.Key { return ratelimit.Key{Denom: p.BankSrc, Chan: p.srcID()} }
@@ -229,7 +242,7 @@ func (s *Sim) countUndo(u ratelimit.Undo) {
 // configured percentage of the channel value recorded when the window started" (accepted ⇒ within).
 func (s *Sim) judgeAdmission(chain int, a ratelimit.Admission, p *TPkt) {
 	if a.Blacklisted {
-		s.C.Violate("C41|blacklisted-denomination-accepted|"+a.Dir.String(), fmt.Sprintf("chain %d accepted %s of %v although %s is blacklisted", chain, a.Dir, p, clip(a.Key.Denom, 20)), map[string]any{"trace_tail": s.tail(40)})
+		s.viol("C41|blacklisted-denomination-accepted|"+a.Dir.String(), fmt.Sprintf("chain %d accepted %s of %v although %s is blacklisted", chain, a.Dir, p, clip(a.Key.Denom, 20)), map[string]any{"trace_tail": s.tail(40)})
 	}
 	if !a.Counted {
 		if a.Whitelisted {
@@ -252,7 +265,7 @@ func (s *Sim) judgeAdmission(chain int, a ratelimit.Admission, p *TPkt) {
 		if a.Value.Sign() == 0 {
 			sig += "|channel-value-zero"
 		}
-		s.C.Violate(sig, fmt.Sprintf("chain %d accepted %s of %v on path %s: net flow %s exceeds %d%% of channel value %s", chain, a.Dir, p, a.Key, a.Net, a.Percent, a.Value),
+		s.viol(sig, fmt.Sprintf("chain %d accepted %s of %v on path %s: net flow %s exceeds %d%% of channel value %s", chain, a.Dir, p, a.Key, a.Net, a.Percent, a.Value),
 			map[string]any{"trace_tail": s.tail(40)})
 	}
 }
@@ -280,7 +293,7 @@ func (s *Sim) compare(chain int, after string) {
 		real[k] = true
 		l := m.Limits[k]
 		if l == nil {
-			s.C.Violate("C41|rate-limit-exists-that-nobody-added", fmt.Sprintf("chain %d has a rate limit on %s the model does not know (after %s)", chain, k, after), map[string]any{"trace_tail": s.tail(30)})
+			s.viol("C41|rate-limit-exists-that-nobody-added", fmt.Sprintf("chain %d has a rate limit on %s the model does not know (after %s)", chain, k, after), map[string]any{"trace_tail": s.tail(30)})
 			continue
 		}
 		in, out, val := bigOf(rl.Flow.Inflow), bigOf(rl.Flow.Outflow), bigOf(rl.Flow.ChannelValue)
@@ -292,16 +305,16 @@ func (s *Sim) compare(chain int, after string) {
 		}
 		s.C.Inc("flows_compared")
 		if in.Sign() < 0 || out.Sign() < 0 {
-			s.C.Violate("C41|negative-flow", fmt.Sprintf("chain %d path %s: inflow %s outflow %s", chain, k, in, out), map[string]any{"trace_tail": s.tail(30)})
+			s.viol("C41|negative-flow", fmt.Sprintf("chain %d path %s: inflow %s outflow %s", chain, k, in, out), map[string]any{"trace_tail": s.tail(30)})
 		}
 		if rl.Quota.MaxPercentSend.Int64() != l.MaxSend || rl.Quota.MaxPercentRecv.Int64() != l.MaxRecv || rl.Quota.DurationHours != l.Hours {
-			s.C.Violate("C41|quota-differs-from-administered", fmt.Sprintf("chain %d path %s: stored quota %v, administered %d/%d/%dh", chain, k, rl.Quota, l.MaxSend, l.MaxRecv, l.Hours), nil)
+			s.viol("C41|quota-differs-from-administered", fmt.Sprintf("chain %d path %s: stored quota %v, administered %d/%d/%dh", chain, k, rl.Quota, l.MaxSend, l.MaxRecv, l.Hours), nil)
 			l.MaxSend, l.MaxRecv, l.Hours = rl.Quota.MaxPercentSend.Int64(), rl.Quota.MaxPercentRecv.Int64(), rl.Quota.DurationHours
 		}
 		bad := false
 		if val.Cmp(l.Value) != 0 {
 			bad = true
-			s.C.Violate("C41|channel-value-differs-from-supply-at-window-start", fmt.Sprintf("chain %d path %s: recorded channel value %s, supply when the window started %s (after %s, events %s)", chain, k, val, l.Value, after, evKinds(s.evs)), map[string]any{"trace_tail": s.tail(40)})
+			s.viol("C41|channel-value-differs-from-supply-at-window-start", fmt.Sprintf("chain %d path %s: recorded channel value %s, supply when the window started %s (after %s, events %s)", chain, k, val, l.Value, after, evKinds(s.evs)), map[string]any{"trace_tail": s.tail(40)})
 		}
 		if out.Cmp(l.Out) != 0 {
 			bad = true
@@ -318,7 +331,7 @@ func (s *Sim) compare(chain int, after string) {
 	}
 	for _, k := range m.Keys() {
 		if !real[k] {
-			s.C.Violate("C41|rate-limit-missing", fmt.Sprintf("chain %d: rate limit on %s vanished (after %s)", chain, k, after), map[string]any{"trace_tail": s.tail(30)})
+			s.viol("C41|rate-limit-missing", fmt.Sprintf("chain %d: rate limit on %s vanished (after %s)", chain, k, after), map[string]any{"trace_tail": s.tail(30)})
 			m.Remove(k)
 		}
 	}
@@ -369,7 +382,7 @@ func (s *Sim) flowDiffers(chain int, k ratelimit.Key, which string, dir ratelimi
 	default:
 		sig = "C41|" + which + "-differs-from-model|events=" + evKinds(s.evs)
 	}
-	s.C.Violate(sig, fmt.Sprintf("chain %d path %s after %s (events %s): recorded %s %s, accepted-minus-refunded in this window %s", chain, k, after, evKinds(s.evs), which, real, model),
+	s.viol(sig, fmt.Sprintf("chain %d path %s after %s (events %s): recorded %s %s, accepted-minus-refunded in this window %s", chain, k, after, evKinds(s.evs), which, real, model),
 		map[string]any{"trace_tail": s.tail(45)})
 }
 
